@@ -32,7 +32,25 @@ def exhaustive(tier):
     return [("transition table N=1..%d x {no LOCK, LOCK}" % (6 if tier == "quick" else 7), specs)]
 
 
-def _check_table(n, with_lock, stats):
+def pinned():
+    # an arbiter with more than 256 initiators (owner indices and counts beyond CPython's shared small ints)
+    return [("wide-260-lock", {"table": {"n": 260, "lock": True, "owners": [0, 127, 255, 256, 257, 259], "offsets": [1, 2, 130, -1]}})]
+
+
+def _check_table(n, with_lock, stats, owners=None, offsets=None):
+    if owners is not None:
+        table = arbsim.transition_samples(n, with_lock, owners, offsets)
+        stats.label("table_wide")
+        for (g, R, stb, lock, ack), g2 in sorted(table.items()):
+            req = [(R >> i) & 1 for i in range(n)]
+            held = bool(req[g]) and (bool(stb or lock) if with_lock else True)
+            exp = arbsim.next_owner(g, req, held, n)
+            if g2 != exp:
+                raise Violation("C09/table/next-owner", f"N={n} LOCK={with_lock}: owner {g}, requesting {[i for i in range(n) if req[i]]}, "
+                                f"owner stb={stb} lock={lock} (held={held}) -> next owner {g2}, round robin says {exp}")
+        stats.add("table_transitions", len(table))
+        stats.nontrivial = True
+        return
     table = arbsim.transition_table(n, with_lock)
     stats.label("table")
     stats.add("table_transitions", len(table))
@@ -90,7 +108,7 @@ def check(spec, stats):
     if sim.set_pre(spec):
         stats.label("pre_elaborated")
     if "table" in spec:
-        return _check_table(spec["table"]["n"], spec["table"]["lock"], stats)
+        return _check_table(spec["table"]["n"], spec["table"]["lock"], stats, spec["table"].get("owners"), spec["table"].get("offsets"))
     arbsim.run_schedule(spec["cfg"], spec["sched"], stats, PROP, False, True)
     n = len(spec["cfg"]["intrs"])
     stats.nontrivial = n >= 3 and stats._adds.get("ownership_changes", 0) >= 3
